@@ -136,8 +136,8 @@ theorem lookup_schema09 : ∀ (s : Schema) (t : Name) (f : List Field), s.names.
 
 /-! ### adapters: the C11 database built from the source profile -/
 
-theorem cells11_raw : ∀ (zs : List (Field × Option (List Char))) (cs : List C11.Cell),
-    mapE (fun fc => cell11 fc.1 fc.2) zs = .ok cs → cs.map (·.raw) = zs.map (·.2) ∧ cs.length = zs.length
+theorem cells11_raw (cols : List String) : ∀ (zs : List (Field × Option (List Char))) (cs : List C11.Cell),
+    mapE (fun fc => cell11 cols fc.1 fc.2) zs = .ok cs → cs.map (·.raw) = zs.map (·.2) ∧ cs.length = zs.length
   | [], cs, h => by
     simp only [mapE, Except.ok.injEq] at h
     subst h
@@ -156,27 +156,30 @@ theorem cells11_raw : ∀ (zs : List (Field × Option (List Char))) (cs : List C
           unfold cell11 at hb
           split at hb
           · cases hb; rfl
-          · cases hb
-        obtain ⟨i1, i2⟩ := cells11_raw zs bs hbs
+          · split at hb
+            · cases hb; rfl
+            · cases hb
+        obtain ⟨i1, i2⟩ := cells11_raw cols zs bs hbs
         simp [hr, i1, i2]
 
 /-- the cells built for a stored row carry exactly its raw texts -/
-theorem row11_raw (fields : List Field) (r : Rec) (cells : List C11.Cell) (h : row11 fields r = .ok cells) :
+theorem row11_raw (cols : List String) (fields : List Field) (r : Rec) (cells : List C11.Cell)
+    (h : row11 cols fields r = .ok cells) :
     cells.map (·.raw) = r ∧ cells.length = fields.length := by
   unfold row11 at h
   split at h
   · cases h
   · rename_i hlen
     have hlen' : r.length = fields.length := by simpa using hlen
-    obtain ⟨k1, k2⟩ := cells11_raw _ _ h
+    obtain ⟨k1, k2⟩ := cells11_raw cols _ _ h
     refine ⟨?_, ?_⟩
     · rw [k1, List.map_snd_zip]
       omega
     · rw [k2, List.length_zip]
       omega
 
-theorem rows11_raw (fields : List Field) : ∀ (rs : List Rec) (rows : List (List C11.Cell)),
-    mapE (row11 fields) rs = .ok rows → rows.map (·.map (·.raw)) = rs
+theorem rows11_raw (cols : List String) (fields : List Field) : ∀ (rs : List Rec) (rows : List (List C11.Cell)),
+    mapE (row11 cols fields) rs = .ok rows → rows.map (·.map (·.raw)) = rs
   | [], rows, h => by
     simp only [mapE, Except.ok.injEq] at h
     subst h
@@ -191,9 +194,10 @@ theorem rows11_raw (fields : List Field) : ∀ (rs : List Rec) (rows : List (Lis
       · rename_i bs hbs
         simp only [Except.ok.injEq] at h
         subst h
-        simp [(row11_raw fields r b hb).1, rows11_raw fields rs bs hbs]
+        simp [(row11_raw cols fields r b hb).1, rows11_raw cols fields rs bs hbs]
 
-theorem rel11_name (fs : C09.Files) (a : Name × List Field) (b : C11.Rel × Bool) (h : rel11 fs a = .ok b) :
+theorem rel11_name (cols : List String) (fs : C09.Files) (a : Name × List Field) (b : C11.Rel × Bool)
+    (h : rel11 cols fs a = .ok b) :
     b.1.name = a.1 := by
   unfold rel11 at h
   split at h
@@ -203,9 +207,9 @@ theorem rel11_name (fs : C09.Files) (a : Name × List Field) (b : C11.Rel × Boo
     · cases h
     · cases h; rfl
 
-theorem rels11_find (fs : C09.Files) (t : Name) (fields : List Field) (rows : List Rec)
+theorem rels11_find (cols : List String) (fs : C09.Files) (t : Name) (fields : List Field) (rows : List Rec)
     (hraw : rawRows fs t = .ok (some rows)) :
-    ∀ (ss : Schema) (rs : List (C11.Rel × Bool)), mapE (rel11 fs) ss = .ok rs → ss.names.Nodup →
+    ∀ (ss : Schema) (rs : List (C11.Rel × Bool)), mapE (rel11 cols fs) ss = .ok rs → ss.names.Nodup →
     (t, fields) ∈ ss →
     ∃ rel, (rs.map (·.1)).find? (fun r => r.name = t) = some rel ∧ rel.fields = fields.map f11 ∧
       rel.rows.map (·.map (·.raw)) = rows
@@ -221,7 +225,7 @@ theorem rels11_find (fs : C09.Files) (t : Name) (fields : List Field) (rows : Li
         simp only [Except.ok.injEq] at h
         subst h
         simp only [Schema.names, List.map_cons, List.nodup_cons] at hnd
-        have hname := rel11_name fs a b hb
+        have hname := rel11_name cols fs a b hb
         rcases List.mem_cons.mp ht with e | e
         · subst e
           unfold rel11 at hb
@@ -231,22 +235,22 @@ theorem rels11_find (fs : C09.Files) (t : Name) (fields : List Field) (rows : Li
           · rename_i rows11 hrows
             cases hb
             exact ⟨{ name := t, fields := fields.map f11, rows := rows11 }, by simp, rfl,
-              rows11_raw fields rows rows11 hrows⟩
+              rows11_raw cols fields rows rows11 hrows⟩
         · have hne : a.1 ≠ t := by
             intro e'
             apply hnd.1
             rw [e']
             exact List.mem_map_of_mem (f := (·.1)) e
-          obtain ⟨rel, h1, h2, h3⟩ := rels11_find fs t fields rows hraw as bs hbs hnd.2 e
+          obtain ⟨rel, h1, h2, h3⟩ := rels11_find cols fs t fields rows hraw as bs hbs hnd.2 e
           refine ⟨rel, ?_, h2, h3⟩
           simp only [List.map_cons, List.find?_cons, hname, hne, decide_false]
           exact h1
 
 /-- the relation `t` of the C11 database: its fields are the schema's, its rows carry the raw rows
 of the file -/
-theorem toDB_rel (fs : C09.Files) (ss : Schema) (db : C11.DB) (missing : List Name) (t : Name)
+theorem toDB_rel (cols : List String) (fs : C09.Files) (ss : Schema) (db : C11.DB) (missing : List Name) (t : Name)
     (fields : List Field) (rows : List Rec) (hnd : ss.names.Nodup) (ht : (t, fields) ∈ ss)
-    (h : toDB ss fs = .ok (db, missing)) (hraw : rawRows fs t = .ok (some rows)) :
+    (h : toDB cols ss fs = .ok (db, missing)) (hraw : rawRows fs t = .ok (some rows)) :
     ∃ rel, db.rel? t = some rel ∧ rel.fields = fields.map f11 ∧ rel.rows.map (·.map (·.raw)) = rows := by
   unfold toDB at h
   split at h
@@ -255,7 +259,7 @@ theorem toDB_rel (fs : C09.Files) (ss : Schema) (db : C11.DB) (missing : List Na
     simp only [Except.ok.injEq, Prod.mk.injEq] at h
     obtain ⟨hdb, _⟩ := h
     subst hdb
-    exact rels11_find fs t fields rows hraw ss rs hrs hnd ht
+    exact rels11_find cols fs t fields rows hraw ss rs hrs hnd ht
 
 /-- rows grouped by source row, each repeated once per element of `xs r`, in `expand` form -/
 theorem grouped_eq_expand {α} (f : α → Rec) (xs : α → List (List C11.Cell)) : ∀ (l : List α),
@@ -289,6 +293,69 @@ theorem kept_filter {α} (f : α → Rec) (xs : α → List (List C11.Cell)) (p 
         intro x hx hp
         exact h (List.any_eq_true.mpr ⟨x, hx, hp⟩)
       simp [h, this, ih]
+
+/-! ### skeletons on C09's files -/
+
+theorem stage_length (fields : List C09.Field) : ∀ (vals : List (List C08.Val)) (lines : List C09.Line),
+    C09.stage fields vals = .ok lines → lines.length = vals.length
+  | [], lines, h => by
+    have : lines = [] := by simpa [C09.stage, pure, Except.pure] using h.symm
+    subst this; rfl
+  | v :: vs, lines, h => by
+    unfold C09.stage at h
+    rw [List.mapM_cons] at h
+    cases h1 : C09.encodeLine fields v with
+    | error e => simp [h1, bind, Except.bind] at h
+    | ok l =>
+      cases h2 : vs.mapM (C09.encodeLine fields) with
+      | error e => simp [h1, h2, bind, Except.bind] at h
+      | ok ls =>
+        simp [h1, h2, bind, Except.bind, pure, Except.pure] at h
+        subst h
+        simp [stage_length fields vs ls h2]
+
+/-- what the clean-up of a skeleton does to a freshly written relation: kept (unchanged) iff it is to
+be kept and records were written; otherwise no file is left -/
+theorem writeC_skeleton (now : Nat) (gzip : Bool) (fields : List Field) (recs : List Rec)
+    (r r' : C09.Rel) (h : writeC now gzip fields recs r = .ok r') (k : Bool) :
+    cleanupOneC k true r' = if k && !recs.isEmpty then r' else {} := by
+  unfold writeC at h
+  cases hst : C09.stage (fields.map f09) (recs.map (·.map C09.toVal)) with
+  | error e => simp [C09.write, hst] at h
+  | ok lines =>
+    have hlen := stage_length _ _ _ hst
+    rw [hst] at h
+    simp only [C09.write, Bool.false_and, Bool.false_eq_true, if_false] at h
+    have he : lines.isEmpty = recs.isEmpty := by
+      cases lines <;> cases recs <;> simp_all
+    by_cases hc : (gzip && !lines.isEmpty) = true
+    · simp only [hc, if_true, List.nil_append, Except.ok.injEq] at h
+      subst h
+      have hre : recs.isEmpty = false := by
+        rw [← he]
+        simp only [Bool.and_eq_true, Bool.not_eq_true'] at hc
+        exact hc.2
+      cases k <;> simp [cleanupOneC, hre]
+    · have hc' : (gzip && !lines.isEmpty) = false := by simpa using hc
+      simp only [hc', Bool.false_eq_true, if_false, List.nil_append, Except.ok.injEq] at h
+      subst h
+      cases k <;> cases hr : recs.isEmpty <;> simp [cleanupOneC, he, hr]
+
+theorem cleanupC_at (target : Schema) (sk : Bool) (old : List Name) (fs : C09.Files) (t : Name)
+    {f : List Field} (ht : (t, f) ∈ target) :
+    cleanupC target sk old fs t.toList = cleanupOneC (keeps target sk t) sk (fs t.toList) := by
+  unfold cleanupC
+  have hmem : t ∈ target.names ++ old := List.mem_append_left _ (L.mem_names ht)
+  cases hfind : (target.names ++ old).find? (fun s => s.toList = t.toList) with
+  | none =>
+    have := List.find?_eq_none.mp hfind t hmem
+    simp at this
+  | some s =>
+    have hs : s = t := by
+      have := List.find?_some hfind
+      exact String.toList_inj.mp (by simpa using this)
+    subst hs
+    rfl
 
 end CL
 
